@@ -4,6 +4,7 @@ import HdVerif.Proofs.AffineTie
 import HdVerif.Proofs.AffinePairs
 import HdVerif.Proofs.AffineRound
 import HdVerif.Proofs.AffineCalls
+import HdVerif.Proofs.AffineImage
 /-! # C10  Coordinate transforms are mutually consistent and invertible
 
 Property theorems only (helper lemmas live in `Proofs/Affine.lean`).  The statements are about the model
@@ -813,5 +814,134 @@ example : (pixToRefCall exPlane.posL exPlane.oriL exPlane.ps (Batch.ofRows 2 tru
 example : pixToRefCall exPlane.posL exPlane.oriL exPlane.ps (Batch.ofRows 2 false [[7, -3]]) = .error .type := by decide +kernel
 example : pixToRefCall exPlane.posL exPlane.oriL exPlane.ps ⟨1, 0, true, []⟩ = .error .index := by decide +kernel
 example : mapPixelIntoCoordinateSystemB [7, -3, 1] exPlane.posL exPlane.oriL exPlane.ps = .error .value := by decide +kernel
+
+
+/-! ## transformers built from an image dataset: `for_image`, `_get_spatial_information`, TILED_FULL frame positions
+
+`Model/AffineImage.lean` models `_get_spatial_information`, `iter_tiled_full_frame_data` (+ `compute_tile_positions_per_frame`) and the
+`for_image` / `for_images` constructors over an abstract record of the attributes they read.  Regenerated from the source (tie T, target
+TC10g): where each functional group is looked up and in which order (`Gen.spatialLookups`, shared before per-frame), that TILED_FULL ignores
+per-frame groups, the defaults (z origin 0, slice spacing 1, one focal plane), the nest of the three loops (`Gen.iterLoopNest`: channel,
+focal plane, tile), z of a focal plane (`Gen.focalPlaneZ`), the number of tiles per direction (`Gen.tilesPerColumn/Row`), the islice bounds,
+which of the four results reaches which constructor keyword (`Gen.pixToRefForImage` …) and the slice spacing used when none is declared.
+Tie C: stream `dataset` (`for_image vs model`: every image kind, every frame, frame 0, frames outside, missing frame number, total pixel
+matrix; values and error kinds). -/
+
+/-- number of tiles per direction: `(total − 1) // tile + 1` (a last partial tile counts) -/
+theorem tiled_full_tile_counts (tf : TiledFull) (hr : 0 < tf.rows) (hc : 0 < tf.cols) :
+    tf.ntc = ((tf.totalCols - 1) / tf.cols + 1).toNat ∧ tf.ntr = ((tf.totalRows - 1) / tf.rows + 1).toNat :=
+  ⟨tf.ntc_eq hc, tf.ntr_eq hr⟩
+
+/-- **frame order of a TILED_FULL image**: channels (optical paths / segments) outermost, then focal planes, then the tiles row by
+row with the tile column running fastest; `channels · planes · tile rows · tile columns` frames in all -/
+theorem tiled_full_frame_order (tf : TiledFull) (ch pl tr tc : Nat) (hch : ch < tf.channels) (hpl : pl < tf.npl) (htr : tr < tf.ntr)
+    (htc : tc < tf.ntc) :
+    (frameNest Gen.iterLoopNest tf.channels tf.npl (tileGrid tf))[(ch * tf.npl + pl) * (tf.ntr * tf.ntc) + (tr * tf.ntc + tc)]?
+      = some (ch, pl, ((tc : Int), (tr : Int))) ∧
+    (frameNest Gen.iterLoopNest tf.channels tf.npl (tileGrid tf)).length = tf.frames := by
+  constructor
+  · have := frameNest_get tf.channels tf.npl (tileGrid tf) ch pl (tr * tf.ntc + tc) hch hpl (by rw [tileGrid_length]; nlinarith)
+    rw [tileGrid_length] at this
+    rw [this, tileGrid_get tf tr tc htr htc]; rfl
+  · rw [frameNest_length, tileGrid_length]; rfl
+
+/-- every frame number `1 … frames` belongs to exactly such a (channel, focal plane, tile row, tile column): the theorems below
+therefore speak about EVERY frame of the image -/
+theorem tiled_full_every_frame_number (tf : TiledFull) (f : Int) (h1 : 1 ≤ f) (h2 : f ≤ tf.frames) :
+    ∃ ch pl tr tc, ch < tf.channels ∧ pl < tf.npl ∧ tr < tf.ntr ∧ tc < tf.ntc ∧ f = tf.frameNumber ch pl tr tc :=
+  tf.frameNumber_surjective f h1 h2
+
+/-- the transformer of the total pixel matrix: origin (z = 0 when absent), slide orientation, shared pixel measures -/
+theorem for_image_total_pixel_matrix {ds : ImageDs} {tf : TiledFull} {P : Plane} {z sbs : Option Rat} (h : TiledSlide ds tf P z sbs)
+    (f : Option Int) : getSpatialInformation ds f true = .ok (P.posL, P.oriL, [P.sr, P.sc], sbs) :=
+  spatialInfo_total h f
+
+/-- **frame vs total pixel matrix - every channel, every focal plane, every tile**: pixel `(c, r)` of the frame at 1-based offset
+`(C, R) = (tc·Columns + 1, tr·Rows + 1)` is pixel `(C − 1 + c, R − 1 + r)` of the total pixel matrix, lifted by `pl` slice spacings (1 when
+none is declared) along z of the slide; the channel does not enter.  (Seeded R5C10-2: a frame index that forgets the channel loop.) -/
+theorem for_image_frame_vs_total_matrix {ds : ImageDs} {tf : TiledFull} {P : Plane} {z sbs : Option Rat} (h : TiledSlide ds tf P z sbs)
+    (ch pl tr tc : Nat) (hch : ch < tf.channels) (hpl : pl < tf.npl) (htr : tr < tf.ntr) (htc : tc < tf.ntc) :
+    pixToRefForImage ds none true = .ok (P.fwd 1) ∧
+    ∃ F, pixToRefForImage ds (some (tf.frameNumber ch pl tr tc)) false = .ok F ∧
+      ∀ c r : Rat, F.apply ⟨c, r, 0⟩
+        = ((P.fwd 1).apply ⟨(((tc : Int) * tf.cols : Int) : Rat) + c, (((tr : Int) * tf.rows : Int) : Rat) + r, 0⟩).add
+            ⟨0, 0, (pl : Rat) * sbs.getD 1⟩ :=
+  forImage_frame_vs_total h ch pl tr tc hch hpl htr htc
+
+/-- the inverse transformer of a frame is built from the frame's own position and the declared slice spacing (1 when none) -/
+theorem for_image_inverse_of_frame {ds : ImageDs} {tf : TiledFull} {P : Plane} {z sbs : Option Rat} (h : TiledSlide ds tf P z sbs)
+    (ch pl tr tc : Nat) (hch : ch < tf.channels) (hpl : pl < tf.npl) (htr : tr < tf.ntr) (htc : tc < tf.ntc) :
+    refToPixForImage ds (some (tf.frameNumber ch pl tr tc)) false
+      = invAffineFromAttributes
+          (((P.lift ((pl : Rat) * sbs.getD 1)).fwd 1).apply ⟨(((tc : Int) * tf.cols : Int) : Rat), (((tr : Int) * tf.rows : Int) : Rat), 0⟩).toList
+          P.oriL (.seq [P.sr, P.sc]) (sbs.getD 1) :=
+  forImage_inverse_of_frame h ch pl tr tc hch hpl htr htc
+
+/-- **frame numbers outside `1 … frames` are refused** -/
+theorem for_image_frame_out_of_range_refused {ds : ImageDs} {tf : TiledFull} {P : Plane} {z sbs : Option Rat}
+    (h : TiledSlide ds tf P z sbs) (f : Int) (hf : f < 1 ∨ (tf.frames : Int) < f) :
+    ∃ e, getSpatialInformation ds (some f) false = .error e :=
+  spatialInfo_tiled_out_of_range h f hf
+
+/-- **per-frame groups: frame `k` gets its OWN position, orientation, pixel spacing and slice spacing** (seeded R3C10-3: orientation read
+from frame 0) -/
+theorem for_image_per_frame_own_attributes (ds : ImageDs) (hc : ds.coord = some .patient) (hm : ds.multiframe = true)
+    (ht : ds.tiledFull = none) (hs1 : ds.shared.measures = none) (hs2 : ds.shared.posPatient = none)
+    (hs3 : ds.shared.oriPatient = none) (k : Nat) (g : Groups) (hk : ds.perFrame[k]? = some g)
+    (pos ori ps : List Rat) (sbs : Option Rat) (h1 : g.measures = some (ps, sbs)) (h2 : g.posPatient = some pos)
+    (h3 : g.oriPatient = some ori) :
+    getSpatialInformation ds (some ((k : Int) + 1)) false = .ok (pos, ori, ps, sbs) :=
+  spatialInfo_per_frame_own ds hc hm ht hs1 hs2 hs3 k g hk pos ori ps sbs h1 h2 h3
+
+/-- **shared groups win** over the per-frame item -/
+theorem for_image_shared_groups_win (ds : ImageDs) (hc : ds.coord = some .patient) (hm : ds.multiframe = true)
+    (ht : ds.tiledFull = none) (pos ori ps : List Rat) (sbs : Option Rat) (h1 : ds.shared.measures = some (ps, sbs))
+    (h2 : ds.shared.posPatient = some pos) (h3 : ds.shared.oriPatient = some ori) (k : Nat) (hk : k < ds.perFrame.length) :
+    getSpatialInformation ds (some ((k : Int) + 1)) false = .ok (pos, ori, ps, sbs) :=
+  spatialInfo_shared_wins ds hc hm ht pos ori ps sbs h1 h2 h3 k hk
+
+/-- frame-number rules: single frame (None or 1, else TypeError), multi-frame (None is a TypeError), no coordinate system (ValueError),
+total pixel matrix without origin (ValueError) -/
+theorem for_image_rules (ds : ImageDs) (c : Coord) (hc : ds.coord = some c) :
+    (ds.multiframe = false → getSpatialInformation ds none false = .ok (ds.rootPos, ds.rootOri, ds.rootPs, ds.rootSbs) ∧
+        getSpatialInformation ds (some 1) false = .ok (ds.rootPos, ds.rootOri, ds.rootPs, ds.rootSbs) ∧
+        ∀ f : Int, f ≠ 1 → getSpatialInformation ds (some f) false = .error .type) ∧
+    (ds.multiframe = true → getSpatialInformation ds none false = .error .type) ∧
+    (ds.totalOrigin = none → ∀ f, getSpatialInformation ds f true = .error .value) ∧
+    (∀ f t, getSpatialInformation { ds with coord := none } f t = .error .value) :=
+  spatialInfo_rules ds c hc
+
+/-- **the transformers built for one image / frame are mutually inverse** (pixel and image-coordinate pairs), for every request
+whose spatial information is a valid plane; the inverse ones use the declared slice spacing, 1 when there is none -/
+theorem for_image_pairs_mutually_inverse (ds : ImageDs) (f : Option Int) (t : Bool) (P : Plane) (hP : P.Valid) (sbs : Option Rat)
+    (h : getSpatialInformation ds f t = .ok (P.posL, P.oriL, [P.sr, P.sc], sbs)) (hs : sbs.getD 1 ≠ 0) :
+    ∃ A B I J, pixToRefForImage ds f t = .ok A ∧ refToPixForImage ds f t = .ok B ∧
+      imgToRefForImage ds f t = .ok I ∧ refToImgForImage ds f t = .ok J ∧
+      (∀ c r : Rat, B.apply (A.apply ⟨c, r, 0⟩) = ⟨c, r, 0⟩) ∧
+      (∀ v : V3, (P.fwd (sbs.getD 1)).apply (B.apply v) = v) ∧
+      (∀ x y : Rat, J.apply (I.apply ⟨x, y, 0⟩) = ⟨x, y, 0⟩) :=
+  forImage_mutually_inverse ds f t P hP sbs h hs
+
+/-! non-vacuity: a TILED_FULL slide image with 3 optical paths x 2 focal planes, 3 x 2 tiles (last tile row partial), no z origin -/
+
+def exSlidePlane : Plane := ⟨⟨43 / 2, 53 / 4, 0⟩, ⟨⟨0, -1, 0⟩, ⟨-1, 0, 0⟩⟩, 1 / 4, 1 / 2⟩
+def exTf : TiledFull := ⟨4, 6, 10, 12, 3, some 2⟩
+def exTiled : ImageDs :=
+  { coord := some .slide, multiframe := true, shared := { measures := some ([1 / 4, 1 / 2], some (3 / 4)) }, tiledFull := some exTf,
+    totalOrigin := some (43 / 2, 53 / 4, none), oriSlide := [0, -1, 0, -1, 0, 0] }
+example : TiledSlide exTiled exTf exSlidePlane none (some (3 / 4)) :=
+  ⟨rfl, rfl, rfl, rfl, rfl, rfl, rfl, by decide, by decide, by decide +kernel, by decide +kernel⟩
+example : exTf.ntc = 2 ∧ exTf.ntr = 3 ∧ exTf.npl = 2 ∧ exTf.frames = 36 := by decide
+/-- frame 29 = third optical path (ch 2), second focal plane (pl 1), tile row 2, tile column 0 -/
+example : exTf.frameNumber 2 1 2 0 = 35 := by decide
+example : (pixToRefForImage exTiled (some 35) false).map (·.t) = .ok ⟨43 / 2 - 2, 53 / 4, 3 / 4⟩ := by decide +kernel
+example : (getSpatialInformation exTiled (some 37) false).isOk = false ∧ (getSpatialInformation exTiled (some 0) false).isOk = false := by
+  decide +kernel
+/-- a localizer-like multi-frame image: two frames with different planes in the per-frame groups -/
+def exLocalizer : ImageDs :=
+  { coord := some .patient, multiframe := true,
+    perFrame := [{ measures := some ([1, 1], some 2), posPatient := some [0, 0, 0], oriPatient := some [1, 0, 0, 0, 1, 0] },
+                 { measures := some ([1 / 2, 3], none), posPatient := some [5, 6, 7], oriPatient := some [0, 1, 0, 0, 0, 1] }] }
+example : getSpatialInformation exLocalizer (some 2) false = .ok ([5, 6, 7], [0, 1, 0, 0, 0, 1], [1 / 2, 3], none) := by decide +kernel
 
 end HdVerif.C10
